@@ -29,7 +29,7 @@ LEVEL = META['level']
 RULE = ('a case = one recorded multi-session history (uniform / mixed / private) checked offline; distinct by (workload kind, seed, history digest); '
         'non-trivial = operations of different sessions really overlapped in time (counted) and at least one write was observed by another session')
 ASSUMPTIONS = ['server scheduler perturbed by sys.setswitchinterval(1e-5) (and LINE yield injection in the thorough tier)', 'client clocks: time.monotonic_ns in one process']
-REQUIRED = ['cold-start:servers', 'monitor:cold-start-tags-distinct', 'server:yields-injected', 'histories:uniform', 'histories:mixed', 'histories:private', 'ops', 'overlapping-pairs', 'server:dfa-lock-contended', 'server:post-closures', 'monitor:torn-read-checks',
+REQUIRED = ['server:sessions-failed-before-concurrency', 'cold-start:servers', 'monitor:cold-start-tags-distinct', 'server:yields-injected', 'histories:uniform', 'histories:mixed', 'histories:private', 'ops', 'overlapping-pairs', 'server:dfa-lock-contended', 'server:post-closures', 'monitor:torn-read-checks',
             'monitor:lincheck-ok', 'monitor:per-session-order', 'monitor:private-slice', 'reads-observing-foreign-write', 'ops:bundled']
 TIMEOUT = {'quick': 300, 'thorough': 2400}
 SOFT = {'quick': 60, 'thorough': 900}
@@ -76,16 +76,24 @@ class Recorder:
     def __init__(self, address, proc, register=True):
         from vlib import simdrv
         self.c = simdrv.RawClient(address, timeout=30)
-        if register:
-            self.c.register(b'R%07d' % proc)
         self.proc = proc
         self.log = []
         self.n = 0
         self.errors = []
+        self.dead = False
+        if register:
+            try:
+                self.c.register(b'R%07d' % proc)
+            except RuntimeError as exc:
+                # a session that is not even opened (while others are being served) is an observation, not a harness failure
+                self.errors.append(('no-reply', 0, repr(exc)))
+                self.dead = True
 
     def do(self, req, tagname):
         """send one request (or bundle) and record member operations"""
         from vlib import refcodec as rc
+        if self.dead:
+            return None
         self.n += 1
         ctxb = struct.pack('<II', self.proc, self.n)
         cip = rc.enc_request(req)
@@ -412,6 +420,33 @@ def cold_start(ctx, rng, nsess, yield_p, salt):
     account(ctx, srv)
 
 
+def failed_sessions(ctx, srv):
+    """Before the concurrent phases: a few sessions on the same server end badly (a peer that dies in the middle of a header, a frame
+    the server cannot process, a reset).  Whatever a failed session leaves behind in the server must not be shared by later ones."""
+    import socket as so, struct as st
+    from vlib import refcodec as rc
+    for how in ('half-header', 'unknown-command', 'reset-mid-frame'):
+        s = so.create_connection(srv.address, timeout=5)
+        try:
+            if how == 'half-header':
+                s.sendall(rc.register_frame()[:10])
+            elif how == 'unknown-command':
+                s.sendall(rc.enc_frame(0x9999, b'', session=0, context=b'BADCMD00'))
+                s.settimeout(2)
+                try:
+                    while s.recv(4096):
+                        pass
+                except OSError:
+                    pass
+            else:
+                s.sendall(rc.register_frame() + rc.register_frame()[:30])
+                s.setsockopt(so.SOL_SOCKET, so.SO_LINGER, st.pack('ii', 1, 0))
+        finally:
+            s.close()
+        ctx.count('server:sessions-failed-before-concurrency')
+    time.sleep(0.3)         # let the server notice the ends
+
+
 def account(ctx, srv):
     ctx.count('server:dfa-lock-contended', srv.stats.get('dfa_contended', 0))
     ctx.count('server:dfa-enter', srv.stats.get('dfa_enter', 0))
@@ -436,6 +471,7 @@ def run(ctx):
         # (1) plain server: tiny switch interval only
         srv = Server(yield_p=0.0)
         try:
+            failed_sessions(ctx, srv)
             for u in range(1 if quick else 3):
                 uniform(ctx, srv, rng, nsess=rng.choice([4, 8]) if quick else rng.choice([2, 4, 8, 12]), nops=40 if quick else 100, salt=salt + u)
             for m in range(NLTAGS if not quick else 15):
